@@ -127,7 +127,14 @@ def evalRemote (v : Victim) (r : Json) : Option (Option Frame × Option Res) :=
     let lbl := fun (s : String) => if s == "this" then v.sid else v.sid + 1000
     pure (some { sessionId := { msg := lbl msg, key := k, sig := { signer := a, msg := lbl sg } }, genesis := g },
           Option.none)
-  | some "malformed" => pure (Option.none, Option.none)
+  | some "malformed" =>
+    -- `weak_key_i`: a well-formed frame over the right session id and chain whose key is one nobody holds (a small-order
+    -- Ed25519 point) with a "signature" no key holder produced: in the symbolic model simply a signature by another
+    -- signer, hence refused with a signature error. (Consensus: the point at infinity does not decode as a BLS key.)
+    if ((getStr r "how").getD "").startsWith "weak_key_" && v.net == .gossip then
+      pure (some { sessionId := { msg := v.sid, key := 900, sig := { signer := 901, msg := v.sid } }, genesis := v.genesis },
+            Option.none)
+    else pure (Option.none, Option.none)
   | some "reflect" => do
     let t ← parseTweak (getObj r "tweak")
     match v.dir with
